@@ -233,6 +233,13 @@ def _max_only_at_zero(f):
             if not st['lhs']['p'] and st['rv']['k'] == 'use' and st['rv']['a']['k'] == 'const' and st['rv']['a'].get('val') == 0xFFFFFFFF and st['rv']['a'].get('ty') == 'u32':
                 mx.append(bi)
     z = value_edges(f, lambda k: _is_req_ack(k), 0)
+    # ... or on the None edge of ack.checked_sub(1) (the same condition, decided by the library)
+    def none_of_checked_sub(d, v, vals):
+        if not (isinstance(d, tuple) and d[0] == 'discr') or v != 0:
+            return False
+        x = peel(d[1], unwraps=False)
+        return is_call(x, r'<impl u32>::checked_sub$') and _is_req_ack(x[2][0]) and const_val(x[2][1]) == 1
+    z = z + f.gate_edges(none_of_checked_sub)
     return bool(mx) and bool(z) and not f.must_pass(z, mx)
 
 
